@@ -521,6 +521,9 @@ func (c *TermCtx) Sub(a, b *Term) *Term {
 	if a == b {
 		return c.Const(a.w, 0)
 	}
+	if b.op == OpConst && a.op == OpAdd && a.args[1].op == OpConst && a.w <= 64 {
+		return c.Add(a.args[0], c.Const(a.w, a.args[1].c-b.c))
+	}
 	if b.op == OpConst && a.w <= 64 {
 		// x - k  ==>  x + (-k), lets additions fold
 		if !(a.rng && a.lo >= b.c) {
@@ -823,9 +826,12 @@ func (c *TermCtx) DivModConst(a *Term, k uint64, signed bool) (q, r *Term) {
 		maxq := mask(w) / k
 		if a.rng {
 			maxq = a.hi / k
+		}
+		// build the axioms first: range annotations would fold them away
+		ax = append(ax, c.Ult(r, kq), c.Ule(q, c.Const(w, maxq)))
+		if a.rng {
 			q.rng, q.lo, q.hi = true, a.lo/k, a.hi/k
 		}
-		ax = append(ax, c.Ult(r, kq), c.Ule(q, c.Const(w, maxq)))
 		r.rng, r.lo, r.hi = true, 0, k-1
 	}
 	c.pendingAxioms = append(c.pendingAxioms, ax...)
@@ -1006,7 +1012,7 @@ func constLit(w int, v uint64) string {
 func smtName(s string) string {
 	ok := true
 	for _, r := range s {
-		if !(r >= 'a' && r <= 'z' || r >= 'A' && r <= 'Z' || r >= '0' && r <= '9' || strings.ContainsRune("_.!#$%&*+-/<=>?@^~", r)) {
+		if !(r >= 'a' && r <= 'z' || r >= 'A' && r <= 'Z' || r >= '0' && r <= '9' || strings.ContainsRune("_.!$%&*+-/<=>?@^~", r)) {
 			ok = false
 			break
 		}
